@@ -68,3 +68,5 @@ package util
 // String forms: only purity (no memory visible to the caller is written) is stated.
 //@ func (Uint256).StringBE
 //@ func (Uint160).StringBE
+//@ func (Uint256).StringLE
+//@ func (Uint160).StringLE
